@@ -11,21 +11,24 @@ COQ = dict(imports=["Model.Heads", "Model.Stamp", "Spec.C05"], in_ty="c05_any", 
            corr="corr_C05_any", decide="check_C05_any", model="model_C05_any")
 THEOREMS = ["C05_decider_sound", "C05_single_target", "C05_base", "C05_purge", "C05_multi_refuted", "C05_multi_partial",
             "C05_multi_partial_class", "C05_any_decider_sound", "C05_e2e_single", "C05_e2e_base", "C05_e2e_purge_any_table",
-            "C05_label_head_refuted"]
+            "C05_label_head_refuted", "C05_label_base", "C05_label_head_partial"]
 TRUSTED = [
     "SQLite + SQLAlchemy execute the three bookkeeping statements as the list model says; matched-row counts are observed",
     "the revision graph is given to the model already loaded; `heads` is given as the observed order of RevisionMap._real_heads "
     "(the model checks that it is a permutation of the real heads); rows are given in the order SELECT returns them",
-    "targets are full revision ids, `base`, `heads`, and (end-to-end cases) label@head whose resolution "
-    "(_resolve_revision_number / get_revisions: C16's code) is observed and handed to the model; partial ids and relative targets are not modelled",
+    "targets are full revision ids, `base`, `heads`, and (end-to-end cases) <label>@head / <label>@base, whose resolution is part of "
+    "the model (resolve_label: the revision declaring the label, the heads by down_revision sharing lineage with it); partial ids "
+    "and relative targets are not modelled",
     "end-to-end cases: env.py (generic template), engine/connection handling and transaction framing (C04) are observed through the "
     "committed rows only; the model says which rows must be committed, not how",
 ]
 ASSUME = [
     "wf_refs G, no directed cycle, r_ndeps as computed by _normalize_depends_on",
     "the state H is a duplicate-free antichain of revisions of G (every state reachable by upgrade/downgrade, property C03)",
-    "C05_multi_partial: at most one target shares lineage with a row of the table; outside it the real code deviates "
-    "(known finding C05-multi-target-stamp, C05_multi_refuted)",
+    "C05_multi_partial: at most one target shares lineage with a row of the table, or the targets that do are rows themselves; "
+    "outside it the real code deviates (known finding C05-multi-target-stamp, C05_multi_refuted)",
+    "C05_label_head_partial: no row shares lineage with the labelled revision only (otherwise known finding C05-label-head-stamp, "
+    "C05_label_head_refuted); C05_label_base has no such restriction",
 ]
 RULE = ("quick: EVERY history of <=4 revisions (topological load order, each earlier revision absent / down_revision / depends_on "
         "of each later one) x EVERY antichain state H x targets {each id, base, heads, every unordered pair of ids (pairs on 4 revisions: every second history in quick, "
@@ -34,8 +37,8 @@ RULE = ("quick: EVERY history of <=4 revisions (topological load order, each ear
         "triples on <=4 revisions, the reversed load order and 10x the random cases. END TO END: the real command.stamp(config, target, "
         "purge=..) with a generic-template env.py on a SQLite FILE, rows read back by a FRESH connection: every history of <=3 revisions "
         "(+12 sampled 4-revision ones; thorough 200) x {every antichain state reached by real `upgrade` commands, a table holding an id "
-        "the scripts do not know (with and without a known one)} x targets {base, each id, lab@head for every placement of the label "
-        "that resolves} x purge; the committed rows / exception class are compared with Model.Stamp.stamp_cmd. Compared exactly: the StampSteps returned by "
+        "the scripts do not know (with and without a known one)} x targets {base, each id, lab@head and lab@base for every placement of the label "
+        "(resolved by the model: Model.Stamp.resolve_label)} x purge; the committed rows / exception class are compared with Model.Stamp.stamp_cmd. Compared exactly: the StampSteps returned by "
         "_stamp_revs (from_, to_, is_upgrade, branch_move), after every step the rows (multiset) and every statement with its "
         "matched-row count, the exception class. non-trivial = at least one step ran")
 EXHAUSTIVE = {"quick": True, "thorough": True}
@@ -111,11 +114,10 @@ def e2e_cases(n, rnd=None, sample=None):
                 if not kids[u]:
                     heads.add(u)
                 todo.extend(kids[u])
-            tg = [["base"]] + [["r%d" % i] for i in range(n)] + ([["lab@head"]] if len(heads) == 1 else [])
+            # label targets for every placement of the label (several heads under the label: CommandError on both sides)
+            tg = [["base"]] + [["r%d" % i] for i in range(n)] + [["lab@head"], ["lab@base"]]
             if lab > 0:
-                tg = [t for t in tg if t == ["lab@head"]]      # the unlabelled targets are the same for every lab
-            if not tg:
-                continue
+                tg = [t for t in tg if "@" in t[0]]            # the unlabelled targets are the same for every lab
             states = [{"up": S} for S in base.antichains(n, down, deps)] + [{"raw": [99]}, {"raw": [99, 0]}]
             for st in states:
                 for t in tg:
@@ -231,15 +233,25 @@ def run_e2e(h):
         order = [k for k, v in m._revision_map.items() if v is not None and k == v.revision]
         enc = [{"id": base._back(k), "down": [base._back(x) for x in m._revision_map[k]._versioned_down_revisions],
                 "deps": sorted(base._back(x) for x in m._revision_map[k]._resolved_dependencies),
-                "ndeps": [base._back(x) for x in m._revision_map[k]._normalized_resolved_dependencies]} for k in order]
+                "ndeps": [base._back(x) for x in m._revision_map[k]._normalized_resolved_dependencies],
+                "labels": [0] if "lab" in m._revision_map[k]._orig_branch_labels else []} for k in order]
         t = h["target"][0]
+        label = "@" in t
         if t == "base":
             groups, dests = [[]], None
+        elif label:                       # resolved by the MODEL (Model.Stamp.resolve_label); here only for classification
+            kids = {r["id"]: [q["id"] for q in enc if r["id"] in q["down"]] for r in enc}
+            seen, todo, hd = set(), [h["label_on"]], []
+            while todo:
+                u = todo.pop()
+                if u not in seen:
+                    seen.add(u)
+                    todo.extend(kids[u])
+                    if not kids[u]:
+                        hd.append(u)
+            groups, dests = [[h["label_on"]] + hd], (hd if t.endswith("@head") and len(hd) == 1 else None)
         else:
-            ids_, lab = m._resolve_revision_number(t)
-            against = ([m._revision_for_ident(lab).revision] if lab else []) + list(ids_)
-            groups = [[base._back(x) for x in against]]
-            dests = [base._back(r.revision) for r in m.get_revisions(t)]
+            groups, dests = [[base._back(t)]], [base._back(t)]
 
         try:
             command.stamp(cfg, t, purge=bool(h["purge"]))
@@ -250,15 +262,19 @@ def run_e2e(h):
             cout, out = "OE2E (Err %s)" % cls, {"rows_before": before, "err": cls, "rows_after": fresh_rows()}
     finally:
         shutil.rmtree(tmp, ignore_errors=True)
-    cin = "CE2E (%s, %s, %s, %s, %s)" % (cf.graph(enc), cf.boolean(h["purge"]), cf.lst(cf.nlist(a) for a in groups),
-                                       "None" if dests is None else "(Some %s)" % cf.nlist(dests), cf.nlist(before))
+    if label:
+        cin = "CLabel (%s, %s, %s 0, %s)" % (cf.graph(enc), cf.boolean(h["purge"]), "LHead" if t.endswith("@head") else "LBase",
+                                            cf.nlist(before))
+    else:
+        cin = "CE2E (%s, %s, %s, %s, %s)" % (cf.graph(enc), cf.boolean(h["purge"]), cf.lst(cf.nlist(a) for a in groups),
+                                           "None" if dests is None else "(Some %s)" % cf.nlist(dests), cf.nlist(before))
     par = {r["id"]: set(r["down"]) | set(r["deps"]) for r in enc}
     cl = {i: base._closure(par, [i]) for i in par}
     rel = lambda a, b: a in cl and b in cl and (a in cl[b] or b in cl[a])
     start = [] if h["purge"] else before
     label_only = [x for x in start if dests and len(groups[0]) > 1 and rel(x, groups[0][0]) and not rel(x, dests[0])]
     out.update({"groups": groups, "dests": dests, "label_only_rows": label_only})
-    shape = "%s-%s-%s%s%s" % (h["kind"], "up" if "up" in st else "unknown-row", "base" if t == "base" else "label" if "@" in t else "id",
+    shape = "%s-%s-%s%s%s" % (h["kind"], "up" if "up" in st else "unknown-row", "base" if t == "base" else t if "@" in t else "id",
                               "-purge" if h["purge"] else "", "-" + out["err"] if "err" in out else "")
     return dict(cin=cin, cout=cout, out=out, nontrivial="err" not in out and sorted(before) != sorted(out["rows_after"]), shape=shape)
 
